@@ -3,10 +3,10 @@
 package secmem
 
 import (
-	"io"
 	"bytes"
 	"errors"
 	"fmt"
+	"io"
 	"os"
 	"reflect"
 	"runtime"
